@@ -47,21 +47,38 @@ Example singular_float_generic :
   m_inverse NumF false InvPlain 2 (all_true 2) [[1;2];[1;2]]%float = PanicSingular.
 Proof. vm_compute. reflexivity. Qed.
 
-(* ---- two defects of the unchanged library, exhibited by the model (known findings) ---- *)
+(* ---- two repaired defects (8a0efbb, 175f3f7): the witnesses as regression examples ----
+   Model.m_inverse / Model.backsub_run are the PRE-fix models (kept because other properties import
+   Model.v); Model2.m_inverse_v2 / backsub_run_v2 model /repo HEAD. *)
+From ADV Require Import C04.Model2.
 Local Open Scope Q_scope.
-(* PositiveDefinite + Submatrix with a selection that is not a leading block: the result is
-   not the inverse of the selected block [[5,3],[3,6]] *)
-Example inverse_pd_submatrix_refuted :
+(* PositiveDefinite + Submatrix with a selection that is not a leading block: before the fix the
+   result was not the inverse of the selected block [[5,3],[3,6]] ... *)
+Example inverse_pd_submatrix_before_8a0efbb :
   let A := qm [[4;2;2];[2;5;3];[2;3;6]]%Z in
   match m_inverse NumQ true InvPD 3 [false;true;true] A, m_inverse NumQ true InvPlain 3 [false;true;true] A with
   | Ok X, Ok Y => mget NumQ X 1 1 = 5#16 /\ mget NumQ Y 1 1 = 2#7
   | _, _ => False end.
 Proof. vm_compute. split; reflexivity. Qed.
+(* ... at HEAD it is (binary64: sqrt 5 is irrational; the plain mode agrees to 1 ulp), whatever the
+   caller-supplied buffers held *)
+Example inverse_pd_submatrix_regression :
+  let A := [[4;2;2];[2;5;3];[2;3;6]]%float in
+  let D := [[7;7;7];[8;8;8];[9;9;9]]%float in
+  m_inverse_v2 NumF true InvPD 3 (Some [false;true;true]) A
+  = Ok [[1; 0; 0]; [0; 0x1.2492492492492p-2; -0x1.2492492492491p-3]; [0; -0x1.2492492492491p-3; 0x1.e79e79e79e79dp-3]]%float /\
+  m_inverse_insitu NumF true InvPD 3 (Some [false;true;true]) (mkBufs (Some D) (Some D) (Some [5;5;5]%float) (Some D)) A
+  = m_inverse_v2 NumF true InvPD 3 (Some [false;true;true]) A.
+Proof. vm_compute. split; reflexivity. Qed.
 
-(* backSubstitution.Run with a caller-supplied InSitu.A: the argument A is ignored *)
-Example backsub_insitu_a_refuted :
-  backsub_run NumQ 2 (qm [[2;1];[0;4]]%Z) (Some [4;8]) (Some (ident NumQ 2)) (zeros NumQ 2) = [4;8] /\
-  backsub_run NumQ 2 (qm [[2;1];[0;4]]%Z) (Some [4;8]) None (zeros NumQ 2) = [1;2].
+(* backSubstitution.Run with a caller-supplied InSitu.A: before the fix the argument A was ignored;
+   at HEAD A is copied into the buffer *)
+Example backsub_insitu_a_before_175f3f7 :
+  backsub_run NumQ 2 (qm [[2;1];[0;4]]%Z) (Some [4;8]) (Some (ident NumQ 2)) (zeros NumQ 2) = [4;8].
+Proof. vm_compute. reflexivity. Qed.
+Example backsub_insitu_a_regression :
+  backsub_run_v2 NumQ 2 (qm [[2;1];[0;4]]%Z) (Some [4;8]) (Some (ident NumQ 2)) (zeros NumQ 2) = [1;2] /\
+  backsub_run_v2 NumQ 2 (qm [[2;1];[0;4]]%Z) (Some [4;8]) None (zeros NumQ 2) = [1;2].
 Proof. vm_compute. split; reflexivity. Qed.
 
 (* ---- round 2: the entries (selected row, UNSELECTED column) are moved by the final row gather ----
